@@ -1,6 +1,7 @@
 package rules
 
 import (
+	"go/types"
 	"go/token"
 	"regexp"
 	"strings"
@@ -250,6 +251,33 @@ func checkC19(c *Ctx) {
 					sprintf("the commission payout is not C*power_i/sum(power_j) over one signer set (form ok=%v, same set=%v): %s", okForm, okSet, ex))
 			}
 		})
+		// the payouts created on execution (reimbursement, refunds, commission) are transfers of their own: they are
+		// not filed under the hash of a user's transfer, whose status and fee records are keyed by that hash
+		nPayoutHash := 0
+		ana.Calls(f, func(site ssa.CallInstruction, d ana.CalleeDesc) {
+			isInsert := false
+			for _, callee := range p.Callees(site) {
+				if hasEff(c.Effects(callee), "bank", "BurnCoins", "") {
+					isInsert = true
+				}
+			}
+			if !isInsert {
+				return
+			}
+			for _, a := range site.Common().Args {
+				if b, isB := a.Type().Underlying().(*types.Basic); !isB || b.Info()&types.IsString == 0 {
+					continue
+				}
+				l := p.Leaves(a, ana.PVOpt{})
+				if l.HasField("SendToExternal.TxHash") {
+					nPayoutHash++
+					r.Bad("C19.record", "payout-hash:"+fname(f), c.pos(site.(ssa.Instruction)), "a payout created on batch execution is filed under the tx hash of a user's transfer: the fee record and the status of that transfer are keyed by the same hash and are overwritten when the payout is batched, executed or expires")
+				}
+			}
+		})
+		if nPayoutHash == 0 {
+			r.Ok("C19.record", "payout-hash:"+fname(f), p.Pos(f.Pos()), "no payout of an execution is filed under the hash of a user's transfer")
+		}
 		if nUser == 0 {
 			r.Undecided("C19.prorata", "user-refund:"+fname(f), p.Pos(f.Pos()), "no per-user fee refund found")
 		}
